@@ -14,7 +14,8 @@ package main
 //
 // case line:  <scenario> <loglevel> <fakemode> <sourcepw-hex> <targetpw-hex>
 // fakemode: ok | autherr (AUTH rejected) | mute (never answers) | tgtdown / srcdown (connection refused) | oklong (ok, 12 s) |
-//           tls (TLS on in the tool, plain-text peers: handshake fails) | tlsdown (TLS on, peers down: dial fails)
+//           tls (TLS on in the tool, plain-text peers: handshake fails) | tlsdown (TLS on, peers down: dial fails) |
+//           slave (every peer answers role:slave)
 
 import (
 	"bufio"
@@ -56,7 +57,7 @@ func init() {
 
 var c19Scenarios = []string{"echo", "sync", "synccluster", "syncresume", "synctgtcluster", "restore", "rump", "dump", "decode", "supervise"}
 var c19Levels = []string{"none", "error", "warn", "info", "debug"}
-var c19Fakes = []string{"ok", "autherr", "mute", "tgtdown", "srcdown", "tls", "tlsdown"}
+var c19Fakes = []string{"ok", "autherr", "mute", "tgtdown", "srcdown", "tls", "tlsdown", "slave"}
 
 const c19Alnum = "ABCDEFGHIJKLMNOPQRSTUVWXYZabcdefghijklmnopqrstuvwxyz0123456789"
 
@@ -107,6 +108,8 @@ func genC19(g *gen) {
 	emit("restore", "info", "tlsdown", g.r.Intn(5))
 	emit("supervise", "error", "tlsdown", g.r.Intn(5))
 	emit("rump", "debug", "tls", g.r.Intn(5))
+	// a shard without a master: the discovery gives up after its retry ladder and the caller logs the error
+	emit("supervise", "info", "slave", g.r.Intn(5))
 	// every log level on the sync path
 	for _, lv := range c19Levels {
 		if lv != "debug" && (g.thorough() || lv == "error" || lv == "info") {
@@ -188,6 +191,10 @@ func runC19(f []string) string {
 	if f[2] == "oklong" {
 		// long enough for the 10 s metric print ticker (metric.print_log) to fire
 		deadline, minRun = 12500*time.Millisecond, 11500*time.Millisecond
+	}
+	if f[2] == "slave" && f[0] == "supervise" {
+		// the supervisor's retry ladder (6+5+4+3+2+1 s of silence) has to run out before the give-up error is logged
+		deadline, minRun = 26*time.Second, 23*time.Second
 	}
 	for alive := true; alive; {
 		select {
@@ -335,7 +342,11 @@ func (f *c19Fake) serve(c net.Conn) {
 	defer c.Close()
 	r := bufio.NewReader(c)
 	_, portStr, _ := net.SplitHostPort(f.addr())
-	info := "# Server\r\nredis_version:5.0.7\r\n# Replication\r\nrole:master\r\nconnected_slaves:1\r\n" +
+	role := "master"
+	if f.mode == "slave" {
+		role = "slave" // a shard in the middle of a fail-over: nobody claims to be the master
+	}
+	info := "# Server\r\nredis_version:5.0.7\r\n# Replication\r\nrole:" + role + "\r\nconnected_slaves:1\r\n" +
 		"slave0:ip=127.0.0.1,port=9320,state=online,offset=15,lag=0\r\nmaster_repl_offset:15\r\n# Keyspace\r\ndb0:keys=2,expires=0,avg_ttl=0\r\n"
 	for {
 		cmd, err := c19ReadCmd(r)
@@ -548,7 +559,9 @@ func c19Child(f []string) {
 			var res *slot.SyncNode
 			select {
 			case res = <-done:
-			case <-time.After(8 * time.Second): // the retry ladder of an unreachable shard is 21 s; its first rounds are enough
+			case <-time.After(map[bool]time.Duration{false: 8 * time.Second, true: 24 * time.Second}[mode == "slave"]):
+				// the retry ladder of a shard without a master is 21 s: waited out only in the `slave` mode, where the
+				// give-up error is the point; elsewhere the first rounds are enough
 			}
 			if res == nil {
 				break
